@@ -161,6 +161,8 @@ def run(ctx):
                 o = rep.oracle_failures[before]
                 return {'signature': o['signature'], 'case': o['case'], 'detail': o['detail']}
         return None
+    from .. import pycorr
+    pycorr.run(ctx)
     return ctx.finish(probe=probe, search=search)
 
 
